@@ -18,7 +18,7 @@ pub fn info() -> PropInfo {
     PropInfo {
         id: "C14",
         level: "exploration",
-        rule: "bounded-exhaustive: every ordered sequence of <=3 (quick: 2) distinct tag names from {all strings over {A,B} of length 1..3, the empty name, and the multi-byte names é, éA, Aé, éé} created and stored with contents from {'', 'v', another tag's name, 'l1\\nl2', 'l1\\r\\nl2\\n'}, then injected into every target line over {A,B,x,é} up to length 5 (quick 4; thorough: 6 for one name, 5 for two, 4 for three) and into a fixed line containing every name; plus seeded random create/store/inject sequences; plus generated whole files (create/store/use/error orders, tail lines, no-output directives) judged by the reference model. Each case runs on several fresh TagStates (fresh hash seeds). Non-trivial = at least one tag stored and the target line contains a tag name, or a create is rejected; distinct = distinct (names, contents, line) / op sequence / file.",
+        rule: "bounded-exhaustive: every ordered sequence of <=3 (quick: 2) distinct tag names from {all strings over {A,B} of length 1..3, the empty name, and the multi-byte names é, éA, Aé, éé} created and stored with contents from {'', 'v', another tag's name, 'l1\\nl2', 'l1\\r\\nl2\\n'}, then injected into every target line over {A,B,x,é} up to length 5 (quick 4; thorough: 6 for one name, 5 for two, 4 for three) and into a fixed line containing every name; plus seeded random create/store/inject sequences; plus generated whole files (create/store/use/error orders, tail lines, no-output directives) judged by the reference model. Each case runs on several fresh TagStates (fresh hash seeds). Non-trivial = at least one tag stored and the target line contains a tag name, or a create is rejected; distinct = distinct (names, contents, line) / op sequence / file. Later additions to the whole-file generator: tag names with an inner blank, stored contents with a carriage return that is content (one\\r\\r\\ntwo), first lines of 8189-20000 bytes, a generated dependency reached while a tag is pending.",
         assumptions: &["reference tag store (harness/src/model.rs TagStore) is a faithful reading of the statement", "line endings LF and CRLF only"],
         floor: (20_000, 200_000),
         shards: (16, 16),
